@@ -39,8 +39,36 @@ type storeRig struct {
 	inst  []oidc.SessionStore
 	mr    *miniredis.Miniredis
 	hooks []*faultHook // one per Redis client: command-level fault injection (inactive unless armed)
+	held  []heldRead   // values earlier reads returned, with what they were then
 	abs   time.Duration
 	idle  time.Duration
+}
+
+// heldRead: what a read handed out, and a snapshot of it taken at once. A caller may keep using the value while other
+// operations run; if the store rewrites it later (because it handed out, or keeps, a structure of its own), two reads
+// are no longer two atomic observations.
+type heldRead struct {
+	tok      *oidc.TokenResponse
+	tokSnap  oidc.TokenResponse
+	auth     *oidc.AuthorizationState
+	authSnap oidc.AuthorizationState
+	op       string
+}
+
+// changedReads reports a held read whose value is no longer what it was when it was returned.
+func (r *storeRig) changedReads() string {
+	for _, h := range r.held {
+		if h.tok != nil && !sameTokens(*h.tok, h.tokSnap) {
+			return fmt.Sprintf("%s returned %+v, which has meanwhile become %+v", h.op, h.tokSnap, *h.tok)
+		}
+		if h.auth != nil && *h.auth != h.authSnap {
+			return fmt.Sprintf("%s returned %+v, which has meanwhile become %+v", h.op, h.authSnap, *h.auth)
+		}
+	}
+	if len(r.held) > 8 {
+		r.held = r.held[len(r.held)-8:]
+	}
+	return ""
 }
 
 func newStoreRig(kind string, abs, idle time.Duration, startNs int64) *storeRig {
@@ -153,12 +181,20 @@ func (r *storeRig) apply(o storeOp) string {
 		cp := *o.Tok
 		return showErr(s.SetTokenResponse(ctx, o.ID, &cp))
 	case "gettok":
-		return showTok(s.GetTokenResponse(ctx, o.ID))
+		t, err := s.GetTokenResponse(ctx, o.ID)
+		if t != nil {
+			r.held = append(r.held, heldRead{tok: t, tokSnap: *t, op: "GetTokenResponse(" + o.ID + ")"})
+		}
+		return showTok(t, err)
 	case "setauth":
 		cp := *o.Auth
 		return showErr(s.SetAuthorizationState(ctx, o.ID, &cp))
 	case "getauth":
-		return showAuth(s.GetAuthorizationState(ctx, o.ID))
+		a, err := s.GetAuthorizationState(ctx, o.ID)
+		if a != nil {
+			r.held = append(r.held, heldRead{auth: a, authSnap: *a, op: "GetAuthorizationState(" + o.ID + ")"})
+		}
+		return showAuth(a, err)
 	case "clear":
 		return showErr(s.ClearAuthorizationState(ctx, o.ID))
 	case "remove":
